@@ -10,7 +10,7 @@ R  == INSTANCE Render
 SO == INSTANCE SemVerOrder
 PO == INSTANCE Pep440Order
 
-CONSTANTS Emit, Suffixes, RuleSets, Big
+CONSTANTS Emit, Suffixes, RuleSets, Big, HLens   \* HLens: hash lengths (0 and 11 are invalid)
 
 B(str) == CASE str = "main" -> <<109,97,105,110>> [] str = "develop" -> <<100,101,118,101,108,111,112>>
             [] str = "develop-x" -> <<100,101,118,101,108,111,112,45,120>>
@@ -53,7 +53,7 @@ VARIABLE f
 Init == f \in Seeds
 Next == /\ ~f.filled
         /\ \E po \in {NONE, 5}, d \in {NONE, 0, 1, 3}, dc \in DirtyChoices, l \in {"", "beta"}, n \in {NONE, 3},
-              m \in {"", "tag", "commit"}, h \in (IF Big THEN {5, 1, 10, 0, 11} ELSE {5}), rs \in RuleSets, sfx \in Suffixes :
+              m \in {"", "tag", "commit"}, h \in HLens, rs \in RuleSets, sfx \in Suffixes :
               f' = [f EXCEPT !.post = po, !.distance = d, !.dirty = dc[1], !.nodirty = dc[2], !.clean = dc[3], !.label = l,
                              !.num = n, !.mode = m, !.hlen = h, !.rules = RS(rs), !.rsid = rs, !.suffix = sfx, !.filled = TRUE]
 Spec == Init /\ [][Next]_f
